@@ -4,6 +4,7 @@ import (
 	"context"
 	"fmt"
 	"sync"
+	"sync/atomic"
 	"testing"
 	"testing/synctest"
 	"time"
@@ -12,6 +13,7 @@ import (
 	"github.com/platinummonkey/go-concurrency-limits/limit"
 	"github.com/platinummonkey/go-concurrency-limits/limiter"
 	"github.com/platinummonkey/go-concurrency-limits/strategy"
+	"github.com/platinummonkey/go-concurrency-limits/strategy/matchers"
 )
 
 // Race-window replays: interleavings inside one Acquire / one release, forced with a gate delegate (parks the caller right
@@ -557,14 +559,19 @@ func raceF11(t *testing.T) raceResult {
 	return queueRace(t, "queue:backlog-over-bound:check-then-push", func(g *gate, st *strategy.PreciseStrategy, q *limiter.QueueBlockingLimiter, points chan chan struct{}, armPoint func(string)) (bool, string) {
 		q.Acquire(context.Background()) // holder, never released
 		armPoint("queue.afterLenCheck")
+		var returned int64
 		for i := 0; i < 2; i++ {
-			go q.Acquire(context.Background())
+			go func() { q.Acquire(context.Background()); atomic.AddInt64(&returned, 1) }()
 		}
 		c1, c2 := <-points, <-points
 		armPoint("")
 		close(c1)
 		close(c2)
 		synctest.Wait()
+		// whatever the limiter makes of two arrivals that both passed the length check: its backlog holds exactly the callers still blocked
+		if blockedNow := 2 - int(atomic.LoadInt64(&returned)); q.VerifBacklogLen() != blockedNow {
+			extraRace = append(extraRace, raceResult{"queue:backlog-not-exact:after-check-then-push-race", fmt.Sprintf("backlog reports %d entries, %d callers are blocked", q.VerifBacklogLen(), blockedNow), true})
+		}
 		if n := q.VerifBacklogLen(); n > 1 {
 			return true, fmt.Sprintf("%d callers wait in a backlog bounded at 1", n)
 		}
@@ -643,8 +650,11 @@ func raceQ3(t *testing.T) (res raceResult) {
 			l  core.Listener
 			ok bool
 		}
-		d1 := make(chan ans, 1)
+		d1, d2 := make(chan ans, 1), make(chan ans, 1)
 		go func() { l, ok := q.Acquire(context.Background()); d1 <- ans{l, ok} }()
+		synctest.Wait()
+		time.Sleep(time.Second)
+		go func() { l, ok := q.Acquire(context.Background()); d2 <- ans{l, ok} }() // a second waiter, behind the first (FIFO)
 		synctest.Wait()
 		time.Sleep(time.Second)
 		g.mu.Lock()
@@ -658,32 +668,174 @@ func raceQ3(t *testing.T) (res raceResult) {
 		}
 		close(c)
 		synctest.Wait()
-		if n := q.VerifBacklogLen(); n != 1 && !res.Failed {
+		if n := q.VerifBacklogLen(); n != 2 && !res.Failed {
 			res.Failed = true
-			res.Detail = fmt.Sprintf("after a hand-off that found no capacity the backlog holds %d entries, 1 caller is waiting", n)
+			res.Detail = fmt.Sprintf("after a hand-off that found no capacity the backlog holds %d entries, 2 callers are waiting", n)
 		}
 		if thief != nil {
 			thief.OnIgnore() // gives the token back without going through the queue
 		}
 		synctest.Wait()
-		if h, ok := q.Acquire(context.Background()); ok { // the next completion through the queue serves the waiter
+		if h, ok := q.Acquire(context.Background()); ok { // the next completion through the queue serves the waiter at the head
 			h.OnSuccess()
 		}
 		synctest.Wait()
+		var first ans
 		select {
-		case a := <-d1:
-			if a.ok {
-				a.l.OnIgnore()
-			}
+		case first = <-d1:
 		default:
 			if !res.Failed {
 				res.Failed = true
-				res.Detail = fmt.Sprintf("the waiter was not served by the next completion (%d backlog entries, %d/1 tokens held)", q.VerifBacklogLen(), st.GetBusyCount())
+				res.Detail = fmt.Sprintf("FIFO: the first waiter was not served by the next completion (%d backlog entries, %d/1 tokens held)", q.VerifBacklogLen(), st.GetBusyCount())
+				select {
+				case a := <-d2:
+					res.Detail += "; the second waiter was served instead"
+					if a.ok {
+						a.l.OnIgnore()
+					}
+				default:
+				}
+			}
+		}
+		if first.ok {
+			first.l.OnSuccess() // and the one after it serves the second
+			synctest.Wait()
+			select {
+			case a := <-d2:
+				if a.ok {
+					a.l.OnIgnore()
+				}
+			default:
+				if !res.Failed {
+					res.Failed, res.Detail = true, "the second waiter was not served by the completion after that"
+				}
 			}
 		}
 		time.Sleep(30 * time.Second)
 		synctest.Wait()
 	})
+	return
+}
+
+// P1 (a settled scenario, no race): the delegate is partitioned by the caller's context.  The total is saturated, the <unknown> partition is
+// full, and a holder of partition "a" completes: the waiter queued for "a" is admitted through its partition's guaranteed share - but only
+// if the hand-off asks the delegate on the WAITER's behalf (with the waiter's context).
+func raceP1(t *testing.T) (res raceResult) {
+	res.Sig = "queue:lost-handoff:waiter-context-ignored"
+	synctest.Test(t, func(t *testing.T) {
+		reg := newSyncRegistry()
+		parts := map[string]*strategy.LookupPartition{"a": strategy.NewLookupPartitionWithMetricRegistry("a", 0.5, 1, reg), "b": strategy.NewLookupPartitionWithMetricRegistry("b", 0.5, 1, reg)}
+		st, err := strategy.NewLookupPartitionStrategyWithMetricRegistry(parts, nil, 2, reg)
+		if err != nil {
+			t.Fatal(err)
+		}
+		dl, _ := limiter.NewDefaultLimiter(limit.NewFixedLimit("f", 2, nil), 1e9, 1e9, 0, 10, st, nil, core.EmptyMetricRegistryInstance)
+		q := limiter.NewQueueBlockingLimiterFromConfig(dl, limiter.QueueLimiterConfig{Ordering: limiter.OrderingFIFO, MaxBacklogSize: 5, MaxBacklogTimeout: 10 * time.Second})
+		ctx := func(k string) context.Context {
+			return context.WithValue(context.Background(), matchers.LookupPartitionContextKey, k)
+		}
+		ha, ok1 := q.Acquire(ctx("a"))
+		_, ok2 := q.Acquire(ctx("zz")) // <unknown> partition: 1/1
+		_, ok3 := q.Acquire(ctx("b"))  // admitted through b's guaranteed share although the total is full
+		if !ok1 || !ok2 || !ok3 {
+			res.Failed, res.Detail = true, fmt.Sprintf("setup: holders a=%v unknown=%v b=%v", ok1, ok2, ok3)
+			return
+		}
+		type ans struct {
+			l  core.Listener
+			ok bool
+		}
+		d := make(chan ans, 1)
+		go func() { l, ok := q.Acquire(ctx("a")); d <- ans{l, ok} }()
+		synctest.Wait()
+		select {
+		case <-d:
+			res.Failed, res.Detail = true, "setup: the second caller of partition a was not queued"
+			return
+		default:
+		}
+		ha.OnSuccess()
+		synctest.Wait()
+		select {
+		case a := <-d:
+			if a.ok {
+				a.l.OnIgnore()
+			}
+		default:
+			res.Failed = true
+			res.Detail = fmt.Sprintf("partition a has a free guaranteed slot after its holder completed, the caller queued for a was not served (%d backlog entries)", q.VerifBacklogLen())
+		}
+		time.Sleep(30 * time.Second)
+		synctest.Wait()
+	})
+	return
+}
+
+// S1 (real time: the removal waits on the strategy's mutex): predicate partitions a and b both match the request; a TryAcquire is parked
+// inside a's predicate while RemovePartitionsMatching removes a.  Matching and charging are one atomic step: either the request was
+// charged before a was removed, or it is charged to b - a partition that has been removed is never charged afterwards.
+func raceS1(t *testing.T) (res raceResult) {
+	res.Sig = "predicate:charged-after-removal"
+	reg := newSyncRegistry()
+	var mu sync.Mutex
+	armed := false
+	parkedCh := make(chan chan struct{}, 1)
+	key := func(ctx context.Context) string {
+		v, _ := ctx.Value(matchers.StringPredicateContextKey).(string)
+		return v
+	}
+	predA := func(ctx context.Context) bool {
+		k := key(ctx)
+		if k == "x" {
+			mu.Lock()
+			p := armed
+			armed = false
+			mu.Unlock()
+			if p {
+				c := make(chan struct{})
+				parkedCh <- c
+				<-c
+			}
+		}
+		return k == "x" || k == "rm"
+	}
+	predB := func(ctx context.Context) bool { return key(ctx) == "x" }
+	a := strategy.NewPredicatePartitionWithMetricRegistry("a", 0.5, predA, reg)
+	b := strategy.NewPredicatePartitionWithMetricRegistry("b", 0.5, predB, reg)
+	s, err := strategy.NewPredicatePartitionStrategyWithMetricRegistry([]*strategy.PredicatePartition{a, b}, 4, reg)
+	if err != nil {
+		t.Fatal(err)
+	}
+	ctx := func(k string) context.Context {
+		return context.WithValue(context.Background(), matchers.StringPredicateContextKey, k)
+	}
+	mu.Lock()
+	armed = true
+	mu.Unlock()
+	var wg sync.WaitGroup
+	wg.Add(2)
+	var tok core.StrategyToken
+	var ok bool
+	go func() { defer wg.Done(); tok, ok = s.TryAcquire(ctx("x")) }()
+	c := <-parkedCh // the request is inside a's predicate
+	busyAtRemoval := -1
+	go func() {
+		defer wg.Done()
+		s.RemovePartitionsMatching(ctx("rm")) // removes a (waits for the strategy if the request holds it)
+		busyAtRemoval = a.BusyCount()
+	}()
+	time.Sleep(40 * time.Millisecond)
+	close(c)
+	wg.Wait()
+	if !ok {
+		res.Failed, res.Detail = true, "the request matching both partitions was refused with the strategy idle"
+		return
+	}
+	if after := a.BusyCount(); after > busyAtRemoval {
+		res.Failed = true
+		res.Detail = fmt.Sprintf("partition a counted %d in flight when RemovePartitionsMatching returned and %d afterwards: it was charged after its removal (b counts %d)", busyAtRemoval, after, b.BusyCount())
+	}
+	tok.Release()
 	return
 }
 
@@ -720,7 +872,7 @@ func runRaces(t *testing.T, rep *Report, races ...func(*testing.T) raceResult) {
 func TestC10Races(t *testing.T) {
 	rep := NewReport("C10races")
 	defer rep.Write(t)
-	runRaces(t, rep, raceF8, raceF8deadline, raceF8poll, raceB2, raceF9a, raceF9b, raceF9c, raceQ2)
+	runRaces(t, rep, raceF8, raceF8deadline, raceF8poll, raceB2, raceF9a, raceF9b, raceF9c, raceQ2, raceP1)
 }
 func TestC12Races(t *testing.T) {
 	rep := NewReport("C12races")
@@ -739,6 +891,12 @@ func TestC19Races(t *testing.T) {
 	runRaces(t, rep, raceQ3)
 }
 
+func TestC03Races(t *testing.T) {
+	rep := NewReport("C03races")
+	defer rep.Write(t)
+	runRaces(t, rep, raceS1)
+}
+
 func TestC11Races(t *testing.T) {
 	rep := NewReport("C11races")
 	defer rep.Write(t)
@@ -751,7 +909,7 @@ func TestC02Races(t *testing.T) {
 	defer rep.Write(t)
 	// conservation must survive the race windows (the lost wake-ups themselves belong to C10)
 	raceOnly = []string{"queue:token-leak", "queue:backlog-not-exact", "blocking:token-leak"}
-	runRaces(t, rep, raceF9c, raceF9b, raceB1)
+	runRaces(t, rep, raceF9c, raceF9b, raceB1, raceF11)
 }
 
 func TestC05Races(t *testing.T) {
